@@ -1,6 +1,7 @@
 import KpModel.Format.Legacy
 import KpModel.Format.Kdbx4Lemmas
 import KpModel.Format.KdbLemmas
+import KpModel.Codec.CivilLemmas
 /-!
 # C02 — legacy containers (KDBX 3.1, KDB) decode to exactly the stored content
 
@@ -430,5 +431,18 @@ example : conform 0 [⟨0, [65], 10⟩, ⟨0, [65], 20⟩, ⟨1, [66], 30⟩]
   intro f hf
   simp only [List.mem_cons, List.not_mem_nil, or_false] at hf
   rcases hf with rfl | rfl <;> simp [valueType]
+
+/-! ### ISO 8601 time stamps (KDBX 3.1): the day count -/
+
+/-- `daysFromCivil` — the day number `parseIso` gives a date — is the proleptic Gregorian day count, for every year
+    (negative ones included): 0 on 1970-01-01 and one more on each next day — within a month, across a month's end
+    (month lengths and leap-year rule of `daysInMonth`), across a year's end.  These laws determine it on all valid dates. -/
+theorem C02_iso_day_count :
+    Kp.Codec.daysFromCivil 1970 1 1 = 0
+    ∧ (∀ y m d : Int, Kp.Codec.daysFromCivil y m (d + 1) = Kp.Codec.daysFromCivil y m d + 1)
+    ∧ (∀ y m : Int, 1 ≤ m → m ≤ 11 →
+        Kp.Codec.daysFromCivil y (m + 1) 1 = Kp.Codec.daysFromCivil y m (Kp.Codec.daysInMonth y m) + 1)
+    ∧ (∀ y : Int, Kp.Codec.daysFromCivil (y + 1) 1 1 = Kp.Codec.daysFromCivil y 12 31 + 1) :=
+  ⟨Kp.Codec.dfc_epoch, Kp.Codec.dfc_next_day, Kp.Codec.dfc_next_month, Kp.Codec.dfc_next_year⟩
 
 end Kp.Props.C02
